@@ -157,7 +157,7 @@ func VerifC10(args []string) {
 	for _, opts := range vfConfigs(args, 2) {
 		conf := w.config("keys", opts)
 		conf.StatelessOperators = []string{"ghost"}
-		for _, name := range []string{"p", "q", "z"} {
+		for _, name := range []string{"p", "q", "z", "y"} {
 			if vfDeclared(stateless, name) {
 				conf.StatelessOperators = append(conf.StatelessOperators, name)
 			}
